@@ -590,7 +590,10 @@ const SPACE_DOCS: usize = 54;
 pub fn bracket_strings() -> Vec<String> {
     let mut out = vec![];
     // ... and over { ']', '>', CR } up to length 4: a carriage return ends a CDATA section, so it meets the "]]>" guard
-    for (alphabet, lens) in [(&[']', '>', 'x'][..], 1..=5usize), (&[']', '>'][..], 6..=7usize), (&[']', '>', '\r'][..], 2..=4usize)] {
+    // ... and over { ']', '>', U+00E9 } and { ']', '>', U+1F600 } up to length 4: a character of two / four bytes before the
+    // brackets (byte offsets and character counts differ from there on)
+    for (alphabet, lens) in [(&[']', '>', 'x'][..], 1..=5usize), (&[']', '>'][..], 6..=7usize), (&[']', '>', '\r'][..], 2..=4usize),
+                             (&[']', '>', '\u{e9}'][..], 2..=4usize), (&[']', '>', '\u{1F600}'][..], 3..=4usize)] {
         for len in lens {
             let total = alphabet.len().pow(len as u32);
             for mut i in 0..total {
@@ -610,7 +613,7 @@ pub fn bracket_text(r: &mut Rng, a: &mut ANode) {
         ANode::Text(s) => {
             if r.chance(1, 2) {
                 let n = 1 + r.below(7);
-                *s = (0..n).map(|_| *r.pick(&[']', ']', ']', '>', '>', 'x', '<', '&', '\n', '\r'])).collect();
+                *s = (0..n).map(|_| *r.pick(&[']', ']', ']', '>', '>', 'x', '<', '&', '\n', '\r', '\u{e9}', '\u{4e2d}'])).collect();
             }
         }
         _ => {}
